@@ -39,6 +39,29 @@ func init() {
 		}
 		indCard := after("Individuals", 6)
 		evTotal := after("Events", 2)
+		// the surname memo of html/publish_header.go over a history of publishers of one document:
+		// (1) two publishers constructed up front, the show site published first, then the hide site;
+		// (2) a hide site published, the living person dies, a new publisher publishes again.
+		allOpts := func(v html.LivingVisibility) *html.PublishShowOptions {
+			return &html.PublishShowOptions{ShowIndividuals: true, ShowSurnames: true, LivingVisibility: v}
+		}
+		surnamesPage := func(p *html.Publisher) string {
+			site := &c17Site{Files: map[string]string{}}
+			if err := p.Publish(&c17Writer{site: site}, 1); err != nil {
+				panic(err)
+			}
+			return site.Files["surnames.html"]
+		}
+		doc2, _ := gedcom.NewDocumentFromString(src)
+		pubShow, pubHide := html.NewPublisher(doc2, allOpts(html.LivingVisibilityShow)), html.NewPublisher(doc2, allOpts(html.LivingVisibilityHide))
+		showFirst := surnamesPage(pubShow)
+		hideSecond := surnamesPage(pubHide)
+		keyedByVisibility := strings.Contains(showFirst, "Ingsurname") && !strings.Contains(hideSecond, "Ingsurname") && strings.Contains(hideSecond, "Timer")
+		doc3, _ := gedcom.NewDocumentFromString(src)
+		before := surnamesPage(html.NewPublisher(doc3, allOpts(html.LivingVisibilityHide)))
+		doc3.Individuals()[0].AddNode(gedcom.NewDeathNode("Y"))
+		afterDeath := surnamesPage(html.NewPublisher(doc3, allOpts(html.LivingVisibilityHide)))
+		forgets := !strings.Contains(before, "Ingsurname") && strings.Contains(afterDeath, "Ingsurname")
 		var b strings.Builder
 		b.WriteString("-- Source: behavioural probes (harness/extract_living.go) on a two-person file (one living, one dead)\n")
 		b.WriteString("-- published with -living hide: surnames.html, Publisher.Places(), GetIndexLetters.\n")
@@ -50,6 +73,11 @@ func init() {
 		b.WriteString("-- the Events card leaves out the living person's event (Total 2 instead of 3).\n")
 		fmt.Fprintf(&b, "def statsIndividualsHideLiving : Bool := %v\n", indCard == "TTotal T1 TLiving T0 TDead T1")
 		fmt.Fprintf(&b, "def statsEventsHideLiving : Bool := %v\n", evTotal == "TTotal T2")
+		b.WriteString("-- the surname memo (getSurnames / forgetSurnames): a show and a hide publisher of one document constructed\n")
+		b.WriteString("-- up front, show published first: the hide site lists only the dead person's surname; a hide site\n")
+		b.WriteString("-- published, `1 DEAT Y` added to the living person, a new publisher: the surname is listed.\n")
+		fmt.Fprintf(&b, "def surnameCacheKeyedByVisibility : Bool := %v\n", keyedByVisibility)
+		fmt.Fprintf(&b, "def newPublisherForgetsSurnames : Bool := %v\n", forgets)
 		b.WriteString("end Gedcom.Generated.Living\n")
 		return b.String()
 	}
